@@ -6,6 +6,7 @@ import SigHook.Model.RegistryConc
 import SigHook.Model.Channel
 import SigHook.Model.ChannelGen
 import SigHook.Model.Iterator
+import SigHook.Model.IterQ
 import SigHook.Model.Entry
 import SigHook.Model.Builtin
 import SigHook.Model.Pipe
@@ -594,6 +595,66 @@ def itStep (d : ItDrv) (line : String) : ItDrv × String :=
     | _, _ => (d, "bad-op")
   | _ => (d, "bad-op")
 
+/-! ### iterator with a queueing exfiltrator (L8q), abstract events -/
+
+def fmtIqObs : IterQ.Obs → String
+  | .sendBegin sig ok => s!"send-begin {sig} {if ok then "ok" else "drop"}"
+  | .sendEnd sig => s!"send-end {sig}"
+  | .storeClosed => "store closed"
+  | .wake ok => s!"wake {if ok then "ok" else "full"}"
+  | .loadClosed v => s!"load closed = {if v then 1 else 0}"
+  | .recv n => s!"recv {n}"
+  | .recvBegin pos sm => s!"recv-begin {pos} {if sm then "some" else "none"}"
+  | .recvEnd pos => s!"recv-end {pos}"
+  | .callback b a => s!"cb {if b then "block" else "nonblock"} {a}"
+
+def iqRun (d : ItDrv) (sched : List Nat) : List String := Id.run do
+  let mut s := IterQ.Sys.init d.watched d.cap d.prefill (d.scripts.toList.map (fun l => l.map (·.2)))
+  let mut texts := d.scripts.map (fun l => l.map (·.1))
+  let mut lines : Array String := #[]
+  for t in sched do
+    let th := s.threads[t]?.getD { script := [], pc := .idle }
+    let atStart := match th.pc with | .idle => true | _ => false
+    if atStart then
+      match texts[t]?.getD [] with
+      | tx :: rest =>
+        lines := lines.push s!"t{t} call {tx}"
+        texts := texts.set! t rest
+      | [] => pure ()
+    let inDeliv := match th.pc, th.script with
+      | .idle, .deliver _ :: _ => "H "
+      | .dEnq _ _, _ => "H "
+      | .dWake _ _, _ => "H "
+      | _, _ => ""
+    match IterQ.step Gen.pollRechecksClosed s t with
+    | none =>
+      lines := lines.push s!"t{t} NOT-ENABLED"
+      break
+    | some (s', out) =>
+      lines := lines.push s!"t{t} {inDeliv}{fmtIqObs out.obs}"
+      match out.yielded with
+      | some r => lines := lines.push s!"t{t} yield {r.1} {r.2}"
+      | none => pure ()
+      match out.ret with
+      | some .done => lines := lines.push s!"t{t} ret done"
+      | some (.pollSignal _) => lines := lines.push s!"t{t} ret poll signal"
+      | some .pollPending => lines := lines.push s!"t{t} ret poll pending"
+      | some .pollClosed => lines := lines.push s!"t{t} ret poll closed"
+      | none => pure ()
+      s := s'
+  let done := s.threads.all (fun th => th.pc == .idle && th.script.isEmpty)
+  let blocked := (List.range s.threads.length).filter (fun t => match s.threads[t]? with
+    | some th => !(th.pc == .idle && th.script.isEmpty) && (IterQ.step Gen.pollRechecksClosed s t).isNone
+    | none => false)
+  lines := lines.push (if done then "END done" else if !blocked.isEmpty then "END blocked" else "END unfinished")
+  return lines.toList
+
+def iqStep (d : ItDrv) (line : String) : ItDrv × String :=
+  match line.trimAscii.toString.splitOn " " with
+  | "schedule" :: rest => (d, "\n".intercalate (iqRun d (rest.filterMap (·.toNat?))))
+  | ["setup", "trace"] | ["delay", _, _] => (d, "")
+  | _ => itStep d line
+
 /-! ### entry points and Signals instances (L10) -/
 
 def parseEntry' (e : String) : Option Entry.Entry :=
@@ -624,6 +685,8 @@ structure EnDrv where
   dead : Bool := false
   /-- signals on which `check` registered its independent flag -/
   flags : List Int := []
+  /-- the instance object has been dropped while a handle clone keeps the shared state alive -/
+  instGone : Bool := false
 
 def knownSig (n : Int) : Bool := Default.known Gen.details n
 
@@ -664,16 +727,23 @@ def enStep (d : EnDrv) (line : String) : EnDrv × String :=
       | .lib _ =>
         let flagSeen := flags.contains sig
         let watched := match w1.inst with
-          | some i => (Registry.lookup sig i.ids).isSome
+          | some i => !d.instGone && (Registry.lookup sig i.ids).isSome
           | none => false
         (d', s!"flag={flagSeen} yielded={if watched then s!"[{sig}]" else "[]"}")
       | dd => (d', s!"notours {fmtDisp dd}")
     | _, _ => (d, "bad-op")
+  | ["dropinst"] => ({ d with instGone := d.w.inst.isSome }, "ok")
+  | ["drophandles"] =>
+    if d.instGone then
+      let r := Entry.dropInst enShape d.w
+      let had := match d.w.inst with | some i => !i.ids.isEmpty | none => false
+      ({ d with w := r.1, instGone := false }, s!"{fmtRes r.2} fds={if r.2 == .panic && had then "+1" else "+0"}")
+    else (d, "ok fds=+0")
   | ["drop"] =>
     let r := Entry.dropInst enShape d.w
     -- a leaked registration keeps the write end of the self-pipe open
     let had := match d.w.inst with | some i => !i.ids.isEmpty | none => false
-    ({ d with w := r.1 }, s!"{fmtRes r.2} fds={if r.2 == .panic && had then "+1" else "+0"}")
+    ({ d with w := r.1, instGone := false }, s!"{fmtRes r.2} fds={if r.2 == .panic && had then "+1" else "+0"}")
   | ["usable"] =>
     let r := Registry.register regEnv d.w.reg Gen.SIGUSR2 d.tag
     let ok := match r.2 with | .id _ _ => true | _ => false
@@ -884,6 +954,7 @@ def main (args : List String) : IO UInt32 := do
   | ["regconc"] => loop stdin stdout ({} : RcDrv) rcStep; return 0
   | ["channel"] => loop stdin stdout ({} : ChDrv) chStep; return 0
   | ["iter"] => loop stdin stdout ({} : ItDrv) itStep; return 0
+  | ["iterq"] => loop stdin stdout ({} : ItDrv) iqStep; return 0
   | ["entries"] => loop stdin stdout ({} : EnDrv) enStep; return 0
   | ["flags"] => loop stdin stdout ({} : FlDrv) flStep; return 0
   | ["pipes"] => loop stdin stdout ({} : PiDrv) piStep; return 0
